@@ -454,3 +454,69 @@ def _offset_provenance(prog, f, e, depth):
     if k == "asg":
         return _offset_provenance(prog, f, e[3], depth)
     return "bad", render(e)[:80]
+
+
+# ---------------------------------------------------------------------------------------
+# F3b: a changed DD-block link (ddblock_t.nextoffset of an existing block) must be persisted:
+# either the block is marked dirty (cache mode, written by HTPsync) or it is written directly.
+
+
+class F3b(PathAnalysis):
+    stable_fields = (("filerec_t", "cache"),)
+
+    def __init__(self, prog):
+        super().__init__(prog)
+        self.exits = []
+        self.where = {}
+
+    def init_user(self, func):
+        return frozenset()
+
+    def on_stmt(self, func, bid, idx, stmt, env, user):
+        pend = set(user)
+        for n in walk(stmt["e"]):
+            if n[0] == "asg":
+                t = strip(n[2])
+                if kind(t) == "mem" and t[3] == "ddblock_t":
+                    b = path(t[1])
+                    if t[2] == "nextoffset" and not is_int(n[3], 0):
+                        pend.add(b)
+                        self.where[b] = n[4]
+                    elif t[2] == "dirty" and not is_int(n[3], 0):
+                        pend.discard(b)
+            elif n[0] == "call" and n[1] == "HP_write":
+                pend.clear()
+        return frozenset(pend)
+
+    def on_exit(self, func, bid, retval, env, user):
+        c = None
+        for k, v in env.items():
+            if k.startswith("$") and k.endswith("->cache"):
+                c = v
+        self.exits.append((classify_ret(retval, self.fails), user, c))
+
+
+def rule_F3b(ctx):
+    prog = ctx.prog
+    n = 0
+    for f in prog.lib_funcs():
+        if not any(nn[0] == "asg" and mem_field(nn[2]) == ("ddblock_t", "nextoffset") and not is_int(nn[3], 0)
+                   for _, _, _, nn in f.nodes(True)):
+            continue
+        if f.name in ("HTPstart",):
+            ctx.excepted("F3b", "F3b:%s" % f.name, f.where(), "reader: decodes nextoffset from the file")
+            continue
+        n += 1
+        a = F3b(prog)
+        a.fails = fail_values(f, prog)
+        a.run(f)
+        bad = [(p, c) for cls, pend, c in a.exits if cls != "fail" for p in pend]
+        key = "F3b:%s" % f.name
+        if bad:
+            p, c = bad[0]
+            ctx.violated("F3b", key + ":" + p, f.where(a.where.get(p)),
+                         "`%s->nextoffset` is changed but on a non-failing path (file_rec->cache %s) the block is neither marked dirty "
+                         "nor written: the link to the next DD block never reaches the disk" % (p, _cv(c)))
+        else:
+            ctx.holds("F3b", key, f.where(), "every changed DD-block link is marked dirty or written on all non-failing paths")
+    ctx.floor("F3b", 1, n, "(functions linking DD blocks)")
